@@ -1,4 +1,5 @@
-"""regenerates MANIFEST.json from the harness modules (run with /verif/.venv/bin/python after adding a harness).
+"""regenerates MANIFEST.json from the harness modules listed in claimed.txt (one property id per line: the checks that
+have been run end to end on the unchanged tree and committed) (run with /verif/.venv/bin/python after adding a harness).
 
 Every harness module harness/cNN.py that defines a dict MANIFEST = {category, text, design, technique[, note]} becomes a
 claimed check; every other property of properties.jsonl is listed under not_applicable with the reason given in NA below
@@ -27,10 +28,11 @@ def main():
     props = [json.loads(l) for l in open(os.path.join(ROOT, "properties.jsonl"))]
     checks = []
     na = []
+    claimed = set(open(os.path.join(ROOT, "claimed.txt")).read().split())
     for p in props:
         pid = p["id"]
         mod = None
-        if os.path.exists(os.path.join(ROOT, "harness", pid.lower() + ".py")):
+        if pid in claimed and os.path.exists(os.path.join(ROOT, "harness", pid.lower() + ".py")):
             mod = importlib.import_module("harness." + pid.lower())
         c = getattr(mod, "MANIFEST", None) if mod else None
         if c:
